@@ -235,10 +235,11 @@ def parse_raw_http(data: bytes) -> Union[HttpRequest, HttpResponse]:
     method, uri, _version = parts
 
     # sanitize uri bytes for `urlparse()` to avoid possible decode errors
-    uri = uri.decode("ascii", errors="ignore").encode()
+    uri = uri.decode("ascii", errors="ignore")
     result = urlsplit(uri)
-    uri = result.path
-    params = dict(parse_qsl(result.query))
+    uri = result.path.encode()
+    # percent-encoded bytes >= 0x80 cannot be round-tripped by parse_qsl on bytes input, decode them as latin-1
+    params = {k.encode("latin-1"): v.encode("latin-1") for k, v in parse_qsl(result.query, encoding="latin-1")}
     return HttpRequest(method=method, body=body, headers=headers, uri=uri, params=params)
 
 
